@@ -36,7 +36,7 @@ ASSUMPTIONS = [
     "xlsx workbooks carry the wall clock in their zip metadata: 'byte-identical' is checked on decoded cell contents",
     "the hash seed cannot be varied inside a process; stage B varies it across child processes",
 ]
-REQUIRED = {"failing_evaluation": 10, "stratum:shared_names": 15, "stratum:underspecified": 15, "interleaved_eval": 40, "models>=2": 60,
+REQUIRED = {"failing_evaluation": 10, "stratum:shared_names": 15, "stratum:underspecified": 15, "stratum:nested_forms": 8, "stratum:shared_elements": 8, "interleaved_eval": 40, "models>=2": 60,
             "op:rebuild_write": 25, "hashseed_models": 20}
 
 
@@ -61,6 +61,50 @@ def _models(draw, stratum):
             m["pair"][0][2] = {"ranges": [{"m": None, "s": None, "body": {"k": "custom", "name": "faulty", "p": []}}]}
             if len(m["pair"]) > 1:
                 m["pair"][1][2] = {"ranges": [{"m": ">=", "s": 0, "body": {"k": "form", "name": "coul", "p": [1, -2]}}]}
+            ms.append(m)
+    elif stratum == "nested_forms":
+        # a custom form used directly with fixed parameters AND called with other arguments from inside another
+        # form's formula, in one model: evaluations of the two alternate in every history (and row by row in
+        # the targets that write all columns of a row together)
+        for i in range(n):
+            m = draw(gen.any_model(gen.PAIR_TARGETS, 1, 3, depth=0, tables=False, customs=False))
+            cs = draw(gen.custom_forms(3, 2, last_feature="custom"))
+            g = cs[-1]
+            called = []
+
+            def find(e):
+                if isinstance(e, dict):
+                    if e.get("o") == "custom":
+                        called.append(e["f"])
+                    for x in e.values():
+                        find(x)
+                elif isinstance(e, list):
+                    for x in e:
+                        find(x)
+            find(g["expr"])
+            f = [c for c in cs if c["name"] == called[0]][0]
+
+            def leaf(form):
+                k = len(form["params"]) - 1
+                return {"k": "custom", "name": form["name"], "p": draw(st.lists(gen.number(0.2, 4), min_size=k, max_size=k))}
+
+            def single(b):
+                return {"ranges": [{"m": None, "s": None, "body": b}]}
+            defs = [single({"k": "mod", "m": draw(st.sampled_from(["sum", "product"])), "args": [single(leaf(f)), single(leaf(g))]}),
+                    single(leaf(f)), single(leaf(g))]
+            m["env"]["custom"] = cs
+            for k, pr in enumerate(m["pair"]):
+                pr[2] = defs[k % 3]
+            ms.append(m)
+    elif stratum == "shared_elements":
+        # EAM models over the same two or three real elements, each with its own [Species] overrides (or none):
+        # the element header of a model is a function of that model alone
+        pool = draw(st.sampled_from([["Al", "Cu"], ["Ni", "Al", "H"], ["Fe", "O"]]))
+        bare = draw(st.integers(0, n - 1))
+        for i in range(n):
+            m = draw(gen.any_model(sorted(gen.EAM_TARGETS), 1, len(pool), depth=0, tables=False, customs=False, pool=pool))
+            if i == bare:
+                m["species"] = []
             ms.append(m)
     elif stratum == "underspecified":
         for i in range(n):
@@ -127,7 +171,8 @@ def strategy(tier):
 
 def strata(tier):
     return [("mixed", _case("mixed"), 4), ("shared_names", _case("shared_names"), 3), ("underspecified", _case("underspecified"), 3),
-            ("failing_evals", _case("failing_evals"), 3)]
+            ("failing_evals", _case("failing_evals"), 3), ("nested_forms", _case("nested_forms"), 2),
+            ("shared_elements", _case("shared_elements"), 2)]
 
 
 def budget(tier):
@@ -145,7 +190,7 @@ def _written(tab, target):
 
 
 def check_case(case):
-    if "hashseed_texts" in case:
+    if "hashseed_texts" in case or "order_texts" in case:
         return _check_hashseeds(case)
     ms = case["models"]
     texts = [_text(m) for m in ms]
@@ -261,7 +306,8 @@ import sys, json, hashlib, io, random
 from vlib import libroute, anymodel
 items = json.load(sys.stdin)
 order = list(range(len(items)))
-random.Random(int(sys.argv[1])).shuffle(order)
+if sys.argv[1] != "fixed":
+    random.Random(int(sys.argv[1])).shuffle(order)
 out = {}
 for i in order:
     target, text = items[i]
@@ -285,7 +331,32 @@ def _run_hashseeds(items):
     return res
 
 
+def _run_fixed(items):
+    """digests of the items tabulated one after the other, in the given order, in ONE fresh process"""
+    env = dict(os.environ, PYTHONHASHSEED="0", PYTHONWARNINGS="ignore")
+    p = subprocess.run([sys.executable, "-W", "ignore", "-c", bootstrap.repo_python_shim() + _CHILD, "fixed"],
+                       input=json.dumps(items).encode(), stdout=subprocess.PIPE, stderr=subprocess.PIPE, env=env, timeout=600)
+    if p.returncode != 0:
+        raise RuntimeError("child failed: %s" % p.stderr.decode()[-500:])
+    res = json.loads(p.stdout.decode().strip().splitlines()[-1])
+    return [tuple(res[str(i)]) for i in range(len(items))]
+
+
+def _check_order(case):
+    """the output of a model tabulated after another one (same process) equals its output in a process of its own"""
+    first, second = case["order_texts"]
+    alone = _run_fixed([second])[0]
+    after = _run_fixed([first, second])[1]
+    v = []
+    if alone != after:
+        v.append(("depends_on_models_built_before", "tabulated alone: %r; tabulated after the first model below, in one process: "
+                  "%r\n---- first model\n%s\n---- the model\n%s" % (alone, after, first[1], second[1])))
+    return {"v": v, "cls": ["order_pairs"], "nt": True, "evals": 2}
+
+
 def _check_hashseeds(case):
+    if "order_texts" in case:
+        return _check_order(case)
     items = case["hashseed_texts"]
     res = _run_hashseeds(items)
     v = []
@@ -306,7 +377,7 @@ def extra(tier, seed, record):
 
     @hypothesis.seed(seed * 7919 + 47)
     @settings(max_examples=n, database=None, deadline=None, suppress_health_check=list(HealthCheck), phases=[Phase.generate])
-    @given(st.one_of(_models("underspecified"), _models("mixed")))
+    @given(st.one_of(_models("underspecified"), _models("mixed"), _models("shared_elements")))
     def collect(ms):
         for m in ms:
             if len(items) < 3 * n:
@@ -319,5 +390,20 @@ def extra(tier, seed, record):
                                            "evals": 5 * len(items), "nt_keys": ["hs%d" % i for i in range(len(items))]})
     for i in bad[:5]:
         case = {"hashseed_texts": [items[i]]}
-        record(case, _check_hashseeds(case))
+        res1 = _check_hashseeds(case)
+        record(case, res1)
+        if not res1["v"]:
+            # not the hash seed: the batches differ in ORDER, so some model tabulated before this one changes it
+            for j in range(len(items)):
+                if j != i:
+                    c2 = {"order_texts": [items[j], items[i]]}
+                    r2 = _check_order(c2)
+                    if r2["v"]:
+                        record(c2, r2)
+                        break
+    # adjacent models of the collection, pairwise: after its neighbour vs alone
+    npairs = 6 if tier == "quick" else 60
+    for j in range(0, min(len(items) - 1, 2 * npairs), 2):
+        c2 = {"order_texts": [items[j], items[j + 1]]}
+        record(c2, _check_order(c2))
     return {"hashseed_models": len(items), "hash_seeds": ["0", "1", "2", "3", "random"], "hashseed_disagreements": len(bad)}
